@@ -328,6 +328,12 @@ def run(prop, tier, seed, replay=None):
 
     if replay:
         rep = json.load(open(replay))
+        if rep.get('kind') == 'listener':
+            from checks import listenermod
+            ck.cov['evaluations'] = 1
+            ck.cov['distinct_nontrivial'] = 1
+            listenermod.replay(ck, rep)
+            return ck.finish()
         job = {'mode': rep['mode'], 'schedules': [rep['schedule']], 'known': SLUGS, 'workers': 1, 'wait_ms': wait_ms}
         res = harness(ck, job, known, INSTR_GATE if rep.get('gate') in GATED else None, 'replay')
         ck.cov['evaluations'] = sum(r['steps'] for r in res) if res else 0
@@ -610,4 +616,8 @@ def run(prop, tier, seed, replay=None):
         ck.notes.append('%d behaviours could not be set up / driven (harness): %s' % (len(counts['harness_problems']), counts['harness_problems'][:3]))
         if len(counts['harness_problems']) > max(3, counts['behaviours'] // 10):
             ck.inconc('too many behaviours could not be executed by the harness: %s' % counts['harness_problems'][:3])
+    if not ck.violations:
+        # the server-side Listener (accept loop, session set, Close): module Listener, an additional pass of this check
+        from checks import listenermod
+        listenermod.run_into(ck, ck.tier)
     return ck.finish()
